@@ -34,7 +34,7 @@ namespace ratio
             set_ni(lit(atm.get_sigma()));
             if (get_solver().get_impulse().is_assignable_from(atm.get_type())) // we apply impulse-predicate whenever the fact becomes active..
                 get_solver().get_impulse().apply_rule(atm);
-            else // we apply interval-predicate whenever the fact becomes active..
+            if (get_solver().get_interval().is_assignable_from(atm.get_type())) // we apply interval-predicate whenever the fact becomes active (a predicate can be both)..
                 get_solver().get_interval().apply_rule(atm);
             restore_ni();
         }
